@@ -5,11 +5,14 @@ From XV Require Import lib.Bytes lib.Lts gen.SessClose C10.Model.
 Definition holds (s : state) (i : nat) : bool :=
   match o_lock (s_o s) with Some j => Nat.eqb j i | None => false end.
 
-(* the wire has at most one closing tag, it is the last item, it is there
-   exactly when the bit is set; the encoder buffer never holds one *)
+(* the wire has at most one closing tag, it is the last item; the bit is set
+   exactly when the tag is there or still owed by the call that set the bit;
+   the encoder buffer never holds one *)
 Definition wire_ok (o : outg) : Prop :=
-  (o_cl o = false -> ~ In IClose (o_wire o)) /\
-  (o_cl o = true -> exists pre, o_wire o = pre ++ [IClose] /\ ~ In IClose pre) /\
+  (o_cl o = false -> ~ In IClose (o_wire o) /\ o_pend o = false) /\
+  (o_cl o = true ->
+     if o_pend o then ~ In IClose (o_wire o)
+     else exists pre, o_wire o = pre ++ [IClose] /\ ~ In IClose pre) /\
   ~ In IClose (o_buf o).
 
 (* every actor's remaining code respects the lock discipline, and an actor that
@@ -42,7 +45,7 @@ Qed.
 
 Lemma safe_programs : forall k, safe false false (prog_of k) = true.
 Proof.
-  destruct k as [|n|n|n|n|n|past| |evs| |]; try reflexivity.
+  destruct k as [|n|n|n|n|n|past| |evs| | |b]; try reflexivity.
   - destruct past; reflexivity.
   - cbn [prog_of]. induction evs as [|e evs IH]; [reflexivity|exact IH].
 Qed.
@@ -56,7 +59,7 @@ Proof. destruct c; reflexivity. Qed.
 Lemma INV_init : forall ds ks, INV (init ds ks).
 Proof.
   intros ds ks. split.
-  - cbn. split; [intros _ []|]. split; [discriminate|intros []].
+  - cbn. split; [intros _; split; [intros []|reflexivity]|]. split; [discriminate|intros []].
   - intro i. unfold actor_ok, holds. cbn.
     destruct (nth_error ks i) as [k|]; cbn.
     + split; [apply safe_programs|discriminate].
@@ -112,6 +115,23 @@ Proof.
     intro H. destruct (H2 H) as [H3 _]. rewrite (holds_other s i j Hh Hn) in H3. discriminate.
 Qed.
 
+(* a step that changes only the state mutex or the peer's readiness *)
+Lemma INV_other_out : forall s i a' o',
+  INV s ->
+  o_lock o' = o_lock (s_o s) -> o_cl o' = o_cl (s_o s) ->
+  o_buf o' = o_buf (s_o s) -> o_wire o' = o_wire (s_o s) -> o_pend o' = o_pend (s_o s) ->
+  safe (holds s i) (a_chk a') (a_code a') = true ->
+  (a_chk a' = true -> a_chk (s_a s i) = true) ->
+  forall ig, INV (mkS o' ig (upd (s_a s) i a')).
+Proof.
+  intros s i a' o' [Hw Ha] Hl Hc Hb Hwi Hp Hs Hch ig. split.
+  - cbn [s_o]. unfold wire_ok in *. rewrite Hc, Hb, Hwi, Hp. exact Hw.
+  - intro j. unfold actor_ok, holds. cbn [s_o s_a]. rewrite Hl, Hc.
+    destruct (Nat.eq_dec j i) as [->|Hn].
+    + rewrite upd_same. split; [exact Hs|]. intro H. exact (proj2 (Ha i) (Hch H)).
+    + rewrite upd_other by exact Hn. exact (Ha j).
+Qed.
+
 Lemma wire_ok_emit o it : wire_ok o -> it <> IClose -> wire_ok (o_emit o it).
 Proof.
   intros (H1 & H2 & H3) Hn. unfold wire_ok, o_emit. cbn.
@@ -121,25 +141,48 @@ Qed.
 
 Lemma wire_ok_flush o : wire_ok o -> o_cl o = false -> wire_ok (o_flush o).
 Proof.
-  intros (H1 & H2 & H3) Hc. unfold wire_ok, o_flush. cbn. split; [|split].
-  - intros _ H. apply in_app_or in H. destruct H as [H|H]; [exact (H1 Hc H)|exact (H3 H)].
+  intros (H1 & H2 & H3) Hc. destruct (H1 Hc) as [Hw Hp]. unfold wire_ok, o_flush. cbn. split; [|split].
+  - intros _. split; [|exact Hp]. intro H. apply in_app_or in H. destruct H as [H|H]; [exact (Hw H)|exact (H3 H)].
   - intro H. rewrite Hc in H. discriminate.
   - intros [].
 Qed.
 
-Lemma wire_ok_close o : wire_ok o -> wire_ok (o_close o).
+Lemma wire_ok_mark o : wire_ok o -> wire_ok (o_mark o).
 Proof.
-  intros (H1 & H2 & H3). unfold o_close. destruct (o_cl o) eqn:Hc.
+  intros (H1 & H2 & H3). unfold o_mark. destruct (o_cl o) eqn:Hc.
   - unfold wire_ok. rewrite Hc. split; [exact H1|]. split; [exact H2|exact H3].
   - unfold wire_ok. cbn. split; [discriminate|]. split; [|exact H3].
-    intros _. exists (o_wire o). split; [reflexivity|exact (H1 eq_refl)].
+    intros _. exact (proj1 (H1 eq_refl)).
 Qed.
 
-Lemma o_close_cl o : o_cl (o_close o) = true.
-Proof. unfold o_close. destruct (o_cl o) eqn:E; [exact E|reflexivity]. Qed.
+Lemma wire_ok_writetag o : wire_ok o -> wire_ok (o_writetag o).
+Proof.
+  intros (H1 & H2 & H3). unfold o_writetag. destruct (o_pend o) eqn:Hp.
+  - destruct (o_cl o) eqn:Hc.
+    + specialize (H2 eq_refl).
+      unfold wire_ok. cbn [o_cl o_pend o_wire o_buf]. split; [intro E; congruence|]. split; [|exact H3].
+      intros _. exists (o_wire o). split; [reflexivity|exact H2].
+    + destruct (H1 eq_refl) as [_ E]. congruence.
+  - unfold wire_ok. rewrite Hp. split; [exact H1|]. split; [exact H2|exact H3].
+Qed.
 
-Lemma o_close_lock o : o_lock (o_close o) = o_lock o.
-Proof. unfold o_close. destruct (o_cl o); reflexivity. Qed.
+Lemma wire_ok_setsl o l : wire_ok o -> wire_ok (o_setsl o l).
+Proof. intro H. exact H. Qed.
+
+Lemma wire_ok_setrdy o b : wire_ok o -> wire_ok (o_setrdy o b).
+Proof. intro H. exact H. Qed.
+
+Lemma o_mark_cl o : o_cl (o_mark o) = true.
+Proof. unfold o_mark. destruct (o_cl o) eqn:E; [exact E|reflexivity]. Qed.
+
+Lemma o_mark_lock o : o_lock (o_mark o) = o_lock o.
+Proof. unfold o_mark. destruct (o_cl o); reflexivity. Qed.
+
+Lemma o_writetag_lock o : o_lock (o_writetag o) = o_lock o.
+Proof. unfold o_writetag. destruct (o_pend o); reflexivity. Qed.
+
+Lemma o_writetag_cl o : o_cl (o_writetag o) = o_cl o.
+Proof. unfold o_writetag. destruct (o_pend o); reflexivity. Qed.
 
 (* inversion of [safe] per operation *)
 Ltac safe_inv := cbn [safe]; rewrite ?andb_true_iff, ?negb_true_iff; tauto.
@@ -159,11 +202,19 @@ Lemma safe_gemit h c it k : safe h c (OGEmit it :: k) = true -> h = true /\ is_c
 Proof. safe_inv. Qed.
 Lemma safe_gflush h c k : safe h c (OGFlush :: k) = true -> h = true /\ safe h c k = true.
 Proof. safe_inv. Qed.
-Lemma safe_closesession h c k : safe h c (OCloseSession :: k) = true -> h = true /\ safe h false k = true.
+Lemma safe_test h c k : safe h c (OTest :: k) = true -> h = true /\ has_unlock k = true /\ safe true true k = true.
 Proof. safe_inv. Qed.
-Lemma safe_senderrbody h c k : safe h c (OSendErrBody :: k) = true -> h = true /\ safe h false k = true.
+Lemma safe_mark h c k : safe h c (OMark :: k) = true -> h = true /\ safe h false k = true.
+Proof. safe_inv. Qed.
+Lemma safe_writetag h c k : safe h c (OWriteTag :: k) = true -> h = true /\ safe h c k = true.
 Proof. safe_inv. Qed.
 Lemma safe_ret h c k : safe h c (ORet :: k) = true -> h = false /\ safe h c k = true.
+Proof. safe_inv. Qed.
+Lemma safe_slock h c k : safe h c (OSLock :: k) = true -> h = false /\ safe h c k = true.
+Proof. safe_inv. Qed.
+Lemma safe_sunlock h c k : safe h c (OSUnlock :: k) = true -> h = false /\ safe h c k = true.
+Proof. safe_inv. Qed.
+Lemma safe_stall h c b k : safe h c (OStall b :: k) = true -> h = false /\ safe h c k = true.
 Proof. safe_inv. Qed.
 Lemma safe_fire h c k : safe h c (OFire :: k) = true -> h = false /\ safe h c k = true.
 Proof. safe_inv. Qed.
@@ -178,6 +229,7 @@ Theorem INV_step : forall s i s', INV s -> step s i = Some s' -> INV s'.
 Proof.
   intros s i s' HI Hstep. unfold step in Hstep.
   destruct (a_code (s_a s i)) as [|o k] eqn:Hcode; [discriminate|].
+  destruct (gate i o (s_o s)); [|discriminate].
   pose proof HI as [Hw Ha]. destruct (Ha i) as [Hsafe Hchk]. rewrite Hcode in Hsafe.
   destruct o; cbn [exec] in Hstep.
   - (* OYield *) injection Hstep as <-. apply INV_local; [exact HI|exact Hsafe|auto].
@@ -243,24 +295,35 @@ Proof.
       * apply wire_ok_flush; assumption.
       * rewrite Hh in Hk. exact Hk.
       * intros _. exact Hcl.
-  - (* OCloseSession *)
-    injection Hstep as <-. apply safe_closesession in Hsafe. destruct Hsafe as (Hh & Hk).
-    apply (INV_holder s i _ _ HI Hh); cbn.
-    + apply o_close_lock.
-    + apply wire_ok_close. exact Hw.
-    + rewrite Hh in Hk. exact Hk.
-    + discriminate.
-  - (* OSendErrBody *)
-    apply safe_senderrbody in Hsafe. destruct Hsafe as (Hh & Hk).
+  - (* OTest *)
+    apply safe_test in Hsafe. destruct Hsafe as (Hh & Hu & Hk).
     destruct (o_cl (s_o s)) eqn:Hcl; injection Hstep as <-.
     + apply INV_local; [exact HI| |cbn; auto].
-      cbn. destruct (a_chk (s_a s i)) eqn:Ec; [|exact Hk].
-      destruct (Hchk eq_refl) as [_ H]. congruence.
-    + apply (INV_holder s i _ _ HI Hh); cbn.
-      * rewrite o_close_lock. reflexivity.
-      * apply wire_ok_close. apply wire_ok_emit; [exact Hw|discriminate].
-      * rewrite Hh in Hk. exact Hk.
-      * discriminate.
+      cbn. rewrite Hh. eapply safe_skip; eassumption.
+    + apply (INV_holder s i _ (s_o s) HI Hh eq_refl Hw); cbn; [exact Hk|auto].
+  - (* OMark *)
+    injection Hstep as <-. apply safe_mark in Hsafe. destruct Hsafe as (Hh & Hk).
+    apply (INV_holder s i _ _ HI Hh); cbn.
+    + apply o_mark_lock.
+    + apply wire_ok_mark. exact Hw.
+    + rewrite Hh in Hk. exact Hk.
+    + discriminate.
+  - (* OWriteTag *)
+    injection Hstep as <-. apply safe_writetag in Hsafe. destruct Hsafe as (Hh & Hk).
+    apply (INV_holder s i _ _ HI Hh); cbn.
+    + apply o_writetag_lock.
+    + apply wire_ok_writetag. exact Hw.
+    + rewrite Hh in Hk. exact Hk.
+    + intro Hc. rewrite o_writetag_cl. exact (proj2 (Hchk Hc)).
+  - (* OSLock *)
+    destruct (o_sl (s_o s)); [discriminate|]. injection Hstep as <-.
+    apply safe_slock in Hsafe. apply (INV_other_out s i _ _ HI); cbn; auto. exact (proj2 Hsafe).
+  - (* OSUnlock *)
+    injection Hstep as <-. apply safe_sunlock in Hsafe.
+    apply (INV_other_out s i _ _ HI); cbn; auto. exact (proj2 Hsafe).
+  - (* OStall *)
+    injection Hstep as <-. apply safe_stall in Hsafe.
+    apply (INV_other_out s i _ _ HI); cbn; auto. exact (proj2 Hsafe).
   - (* ORet *)
     injection Hstep as <-. apply safe_ret in Hsafe. destruct Hsafe as (Hh & Hk).
     apply INV_local; [exact HI|exact Hk|cbn; auto].
